@@ -101,6 +101,27 @@ def check(prog, run):
         else:
             run.violation("constructor-refuses-unsupported", c, "not refused with NotSupportedArgumentError: %s"
                           % ("constructed" if p.returned else p.raised.describe()), file, ecls.node.lineno, ecls.qualname)
+    # a mapping together with keyword arguments (a form the documentation does not promise): either refused, or the
+    # mapping's names are all there with their values -- never silently dropped
+    for label, a, k in (("a mapping and one keyword", [{"first": 1, "second": 2}], {"third": 3}),
+                        ("a mapping and a keyword repeating one of its names", [{"first": 1, "second": 2}], {"second": 2})):
+        def tm(a=a, k=k):
+            e = I.instantiate(ecls, [dict(a[0])], dict(k), None, _F())
+            return [(n, I.get_attr(e, n, None, _F())) for n in a[0]], list(I.get_attr(e, "keys", None, _F()))
+        p = ev(tm, label)
+        c = "Enum(%s)" % label
+        if not p.returned:
+            ec = p.raised.exc_class()
+            if ec is not None and ec.name in ("NotSupportedArgumentError", "TypeError", "ValueError", "AttributeError") and "first" not in str(p.raised.describe()):
+                run.ok("mapping-names-kept", c, {"refused": ec.name})
+            else:
+                run.violation("mapping-names-kept", c, "the names of the mapping are not exposed: %s" % p.raised.describe(),
+                              file, ecls.node.lineno, ecls.qualname)
+        elif all(norm_int(v) == a[0][n] for n, v in p.value[0]) and all(n in p.value[1] for n in a[0]):
+            run.ok("mapping-names-kept", c)
+        else:
+            run.violation("mapping-names-kept", c, "the enumeration reports keys %r: names of the mapping are missing" % (p.value[1],),
+                          file, ecls.node.lineno, ecls.qualname)
     base = {"a": 1, "b": 2, "c": 1}
 
     def fresh():
@@ -144,6 +165,21 @@ def check(prog, run):
     else:
         run.violation("add-contract", "Enum.add new name", "after add('d', 4): %r" % ((p.value[1:3] if p.returned else p.raised.describe()),),
                       file, fadd.node.lineno, fadd.qualname)
+
+    # a new name that happens to be spelled like something every class object has anyway (type's own methods and
+    # attributes): it is not a member, so it is added like any other name
+    for newname in ("mro", "register", "d_", "copy", "items"):
+        def t_add_named(newname=newname):
+            e = fresh()
+            I.call_function(fadd, [e, newname, 4], {}, None, _F())
+            return I.get_attr(e, "keys", None, _F()), I.get_attr(e, newname, None, _F()), I.get_item(e, 4, None, _F())
+        p = ev(t_add_named, "add %s" % newname)
+        c = "Enum.add new name %r" % newname
+        if p.returned and p.value[0] == ["a", "b", "c", newname] and norm_int(p.value[1]) == 4 and p.value[2] == newname:
+            run.ok("add-contract", c)
+        else:
+            run.violation("add-contract", c, "add(%r, 4) on an enumeration without that name: %s (a dictionary accepts it)"
+                          % (newname, (p.value if p.returned else "refused: " + p.raised.describe())), file, fadd.node.lineno, fadd.qualname)
 
     def t_add_same_value():
         e = fresh()
